@@ -633,3 +633,52 @@ pub fn self_test() -> Result<(), String> {
     }
     Ok(())
 }
+
+/// Cross-check of the grid emulator against the `vt100` crate (the emulator behind indicatif's
+/// own `InMemoryTerm`) on pseudo-random streams of the byte sequences a draw emits, for terminals
+/// with at least 2 rows (vt100 0.15 panics when a line wraps on a 1-row screen). Compares the
+/// visible screens; a disagreement is a harness problem, never a violation.
+pub fn cross_check(seed: u64, streams: usize) -> Result<usize, String> {
+    let mut x = seed.wrapping_mul(0x9E3779B97F4A7C15) | 1;
+    let mut next = |m: usize| -> usize {
+        x ^= x << 13;
+        x ^= x >> 7;
+        x ^= x << 17;
+        (x >> 11) as usize % m.max(1)
+    };
+    let mut compared = 0;
+    for _ in 0..streams {
+        let rows = 2 + next(10);
+        let cols = 2 + next(30);
+        let mut g = Grid::new(rows, cols);
+        let mut p = vt100::Parser::new(rows as u16, cols as u16, 0);
+        let mut fed = String::new();
+        for _ in 0..(5 + next(60)) {
+            let chunk = match next(12) {
+                0 | 1 | 2 | 3 => (0..1 + next(cols + 3)).map(|_| (b'a' + next(26) as u8) as char).collect::<String>(),
+                4 => "\r\n".to_string(),
+                5 => "\r\n".to_string(),
+                // cursor moves as a draw issues them: at column 0 / followed by a carriage return (terminals
+                // differ in whether a vertical move keeps a pending wrap; indicatif never depends on it)
+                6 => format!("\x1b[{}A\r", 1 + next(rows + 1)),
+                7 => format!("\r\x1b[{}B", 1 + next(rows)),
+                8 => "\r\x1b[2K".to_string(),
+                9 => " ".repeat(next(cols + 1)),
+                10 => "\x1b[31mz\x1b[0m".to_string(),
+                _ if cols >= 4 => "\u{e9}\u{4e16}".to_string(),
+                _ => "\u{e9}".to_string(),
+            };
+            // the emulator treats a bare \n as CR LF (ONLCR); vt100 gets it spelled out
+            g.feed(&chunk);
+            p.process(chunk.as_bytes());
+            fed.push_str(&chunk);
+            let ours: Vec<String> = (0..rows).map(|r| g.row_text(g.top + r)).collect();
+            let theirs: Vec<String> = p.screen().rows(0, cols as u16).map(|r| r.trim_end().to_string()).collect();
+            if ours != theirs {
+                return Err(format!("emulators disagree on a {rows}x{cols} screen after {fed:?}: ours {ours:?}, vt100 {theirs:?}"));
+            }
+            compared += 1;
+        }
+    }
+    Ok(compared)
+}
